@@ -325,6 +325,36 @@ Section DiffProofs.
         replace (i - sp + (sp + 1)) with (i + 1) by lia. replace (bs * (i + 1)) with (bs * i + bs) by ring. assumption.
   Qed.
 
+  (** operation lists for the "identical file" argument (C08) *)
+  Lemma enqueue_empty_ops e P s :
+    EInv e P ->
+    ops_of (enqueue e (OpData s 0)) = ops_of e \/
+    (ops_of e = [] /\ ops_of (enqueue e (OpData s 0)) = [OpData s 0]).
+  Proof.
+    intros [HF Hall Hprev].
+    destruct HF as [Hden Hrng Hdat Hmrg Hemp Hmx Hsent Hpr].
+    destruct (flush_prev_ops e Hsent Hpr) as (Hops & Hnone & Hsent' & Hout).
+    cbn [enqueue]. unfold send. cbn [is_empty_data]. rewrite N.eqb_refl, andb_true_r.
+    destruct (0 <? sent (flush_prev e)) eqn:Es.
+    - left. exact Hops.
+    - right. apply N.ltb_ge in Es.
+      assert (Hnil : out (flush_prev e) = []).
+      { rewrite Hsent' in Es. unfold len in Es. destruct (out (flush_prev e)); [reflexivity|cbn [length] in Es; lia]. }
+      split.
+      + rewrite <- Hops. unfold ops_of. rewrite Hnil, Hnone. reflexivity.
+      + unfold ops_of. cbn [prev out]. rewrite Hnone, Hnil. reflexivity.
+  Qed.
+
+  Lemma enqueue_range_isrange e P f i :
+    EInv e P -> Forall is_range_op (ops_of e) -> Forall is_range_op (ops_of (enqueue e (OpRange f i 1))).
+  Proof.
+    intros HI Hr. destruct (enqueue_range_ops e P f i HI) as (_ & Hcase).
+    destruct Hcase as [(Hops & _)|(l & sp & Hl & _ & _ & Hops & _)]; rewrite Hops.
+    - apply Forall_app. split; [assumption|]. constructor; [exact I|constructor].
+    - rewrite Hl in Hr. apply Forall_app in Hr. destruct Hr as [Hr _].
+      apply Forall_app. split; [assumption|]. constructor; [exact I|constructor].
+  Qed.
+
   (** * Part 2: the loop body *)
 
   Notation get := (get_of src).
